@@ -83,3 +83,11 @@ Definition v_dynamic_alias (static_ok : bool) (ret_static observed : list Z)
   let v := v_dynamic63 static_ok args in
   let covered := forallb (fun p => existsb (Z.eqb p) ret_static) observed in
   if static_ok && negb covered then (if Z.odd v then v else v + 1) else v.
+
+(* A case in which the arguments were made READ-ONLY and the call died with numpy's "... is read-only" error: the call
+   tried to write into the caller's array (the flag turned the silent mutation into an exception).  The property checker
+   rejects it, whatever the snapshots say. *)
+Definition v_case (ro_write_attempt static_ok : bool) (ret_static observed : list Z)
+    (args : list ((Z * list int * Z * list int) * (Z * list int * Z * list int))) : Z :=
+  if ro_write_attempt then (if static_ok then 3 else 2)
+  else v_dynamic_alias static_ok ret_static observed args.
